@@ -8,15 +8,20 @@
   `w`      = number of worker chunks the model cuts every outer record range into (the answer must not depend on it)
   `v_i`    = profile tokens (Proto.parseProfile); cells and literals are indices into this dictionary
   Plan    := T k | G | J kind Plan Plan JC | Q Plan Where Sel
+           | A alias n name… Plan            the sub-plan seen under a table alias (n > 0: columns renamed)
+           | E nt (name k nc col…)* nf (name k nc col…)* Plan    session: temporary tables / files by name
+           | W name nc col… Plan(def) Plan(body)                 common table expression
+           | N name                          a FROM name to be resolved: CTE over temporary table over file
   kind    := C | I | L | R | F
   JC      := - | O Cond | U n (li ri)*          (li / ri: column index in the left / right operand)
   Where   := - | W Cond
-  Sel     := * | S n i…
+  Sel     := * | S n i… | L n item…      item := i idx out|- | r view|- name out|-     (out = AS name)
   Cond    := cmp op E E | and C C | or C C | not C | isnull neg E | btw neg E E E | in neg E n v… | truth E
-  E       := c side idx | l v
+  E       := c side idx | l v | n view|- name        (field reference by name, resolved by the model)
   A last token `#<hex>` (the SQL text that was run) is ignored.
   answer: `<width> <row>|<row>|…` (cells `Proto.showVal` of the raw value, joined by `,`), `<width> -` when
-  there is no row, `ERR` when the recursion limit is exceeded.
+  there is no row, `ERR` when the recursion limit is exceeded, `EAMB` / `ENOF` when an evaluated field
+  reference is ambiguous / does not exist, `ENOTBL` when a FROM name denotes nothing.
 -/
 import Csvq.Model.Proto
 import Csvq.Model.Rel
@@ -32,11 +37,27 @@ inductive JCond
   | on (c : CondE)
   | using (pairs : List (Nat × Nat))
 
+inductive SelItem
+  | idx (i : Nat) (out : Option String)
+  | ref (view : Option String) (name : String) (out : Option String)
+
+inductive Sel
+  | star
+  | idxs (l : List Nat)
+  | items (l : List SelItem)
+
+/-- a named table of the session: name, index of its contents, column names -/
+abbrev NamedTbl := String × Nat × List String
+
 inductive Plan
   | tbl (k : Nat)
   | gen
   | join (k : JKind) (l r : Plan) (jc : JCond)
-  | query (src : Plan) (wh : Option CondE) (sel : Option (List Nat))
+  | query (src : Plan) (wh : Option CondE) (sel : Sel)
+  | alias (a : String) (names : List String) (p : Plan)
+  | session (temps files : List NamedTbl) (p : Plan)
+  | withC (name : String) (cols : List String) (defn body : Plan)
+  | named (name : String)
 
 abbrev P (α : Type) := List String → Option (α × List String)
 
@@ -64,7 +85,42 @@ def pExpr (vals : Array Profile) : P Expr
     let v ← v.toNat?
     let p ← vals[v]?
     pure (.lit p, ts)
+  | "n" :: v :: name :: ts => some (.ref (if v = "-" then none else some v) name, ts)
   | _ => none
+
+def pOptName : P (Option String)
+  | t :: ts => some (if t = "-" then none else some t, ts)
+  | [] => none
+
+def pNames : Nat → P (List String)
+  | 0, ts => some ([], ts)
+  | n + 1, t :: ts => do
+    let (r, ts) ← pNames n ts
+    pure (t :: r, ts)
+  | _, [] => none
+
+def pSelItems : Nat → P (List SelItem)
+  | 0, ts => some ([], ts)
+  | n + 1, "i" :: i :: ts => do
+    let i ← i.toNat?
+    let (o, ts) ← pOptName ts
+    let (r, ts) ← pSelItems n ts
+    pure (.idx i o :: r, ts)
+  | n + 1, "r" :: v :: name :: ts => do
+    let (o, ts) ← pOptName ts
+    let (r, ts) ← pSelItems n ts
+    pure (.ref (if v = "-" then none else some v) name o :: r, ts)
+  | _, _ => none
+
+def pNamedTbls : Nat → P (List NamedTbl)
+  | 0, ts => some ([], ts)
+  | n + 1, name :: ts => do
+    let (k, ts) ← pNat ts
+    let (nc, ts) ← pNat ts
+    let (cols, ts) ← pNames nc ts
+    let (r, ts) ← pNamedTbls n ts
+    pure ((name, k, cols) :: r, ts)
+  | _, [] => none
 
 def pCond (vals : Array Profile) : Nat → P CondE
   | 0, _ => none
@@ -155,13 +211,45 @@ def pPlan (vals : Array Profile) : Nat → P Plan
         | "W" :: ts => (pCond vals f ts).map (fun (c, ts) => (some c, ts))
         | _ => none)
       let (sel, ts) ← (match ts with
-        | "*" :: ts => some (none, ts)
+        | "*" :: ts => some (Sel.star, ts)
         | "S" :: ts => do
           let (n, ts) ← pNat ts
           let (is, ts) ← pNats n ts
-          pure (some is, ts)
+          pure (Sel.idxs is, ts)
+        | "L" :: ts => do
+          let (n, ts) ← pNat ts
+          let (is, ts) ← pSelItems n ts
+          pure (Sel.items is, ts)
         | _ => none)
       pure (.query src wh sel, ts)
+    | "A" =>
+      match ts with
+      | a :: ts => do
+        let (n, ts) ← pNat ts
+        let (names, ts) ← pNames n ts
+        let (p, ts) ← pPlan vals f ts
+        pure (.alias a names p, ts)
+      | [] => none
+    | "E" => do
+      let (nt, ts) ← pNat ts
+      let (temps, ts) ← pNamedTbls nt ts
+      let (nf, ts) ← pNat ts
+      let (files, ts) ← pNamedTbls nf ts
+      let (p, ts) ← pPlan vals f ts
+      pure (.session temps files p, ts)
+    | "W" =>
+      match ts with
+      | name :: ts => do
+        let (nc, ts) ← pNat ts
+        let (cols, ts) ← pNames nc ts
+        let (d, ts) ← pPlan vals f ts
+        let (b, ts) ← pPlan vals f ts
+        pure (.withC name cols d b, ts)
+      | [] => none
+    | "N" =>
+      match ts with
+      | name :: ts => some (.named name, ts)
+      | [] => none
     | _ => none
   | _, [] => none
 
@@ -206,10 +294,17 @@ def chunkN {α} (n : Nat) (l : List α) : List (List α) :=
   | [] => [[]]
   | cs => cs
 
+abbrev Hdr := List HField
+
 structure Env where
   tables : Array (Nat × List Row)
-  gen : Nat × List Row
+  gen : Hdr × List Row
   w : Nat
+  ctes : List (String × (Hdr × List Row)) := []
+  temps : List NamedTbl := []
+  files : List NamedTbl := []
+
+def anonHdr (n : Nat) : Hdr := List.replicate n { view := "", name := "", isJoin := false }
 
 /-- the ON condition of a USING / NATURAL join: `l.c1 = r.c1 AND l.c2 = r.c2 AND …` (left-nested) -/
 def usingCond : List (Nat × Nat) → Option CondE
@@ -218,19 +313,62 @@ def usingCond : List (Nat × Nat) → Option CondE
     some (rest.foldl (fun acc (p : Nat × Nat) => CondE.and acc (.cmp .eq (.col 0 p.1) (.col 1 p.2)))
       (.cmp .eq (.col 0 li) (.col 1 ri)))
 
-def eval (env : Env) : Plan → Option (Nat × List Row)
-  | .tbl k => env.tables[k]?
-  | .gen => some env.gen
+def errStr : ResErr → String
+  | .ambiguous => "EAMB"
+  | .notExist => "ENOF"
+
+def bad : String := "bad-op"
+
+def optE {α} (o : Option α) : Except String α :=
+  match o with
+  | some a => .ok a
+  | none => .error bad
+
+/-- the first resolution error met when the condition is evaluated on the given rows (in the Go code any
+    worker that hits it fails the whole operation) -/
+def firstErr (lw : Nat) (ce : CondE) (rows : List Row) : Option ResErr :=
+  rows.findSome? (fun r => match evalCondE lw r ce with | .error e => some e | .ok _ => none)
+
+def lookupNamed (n : String) : List NamedTbl → Option NamedTbl
+  | [] => none
+  | t :: ts => if eqFold t.1 n then some t else lookupNamed n ts
+
+def lookupCte (n : String) : List (String × (Hdr × List Row)) → Option (Hdr × List Row)
+  | [] => none
+  | t :: ts => if eqFold t.1 n then some t.2 else lookupCte n ts
+
+def renameHdr (names : List String) (h : Hdr) : Except String Hdr :=
+  if names.isEmpty then .ok h
+  else if names.length ≠ h.length then .error bad
+  else .ok (List.zipWith (fun (f : HField) n => { f with name := n }) h names)
+
+def eval (env : Env) : Plan → Except String (Hdr × List Row)
+  | .tbl k => do
+    let (nc, rows) ← optE env.tables[k]?
+    pure (anonHdr nc, rows)
+  | .gen => pure env.gen
   | .join kind l r jc => do
-    let (lw, L) ← eval env l
-    let (rw, R) ← eval env r
+    let (lh, L) ← eval env l
+    let (rh, R) ← eval env r
+    let lw := lh.length
+    let rw := rh.length
     let ce : Option CondE := match jc with
       | .none => none
-      | .on c => some c
+      | .on c => some (resolveCond (lh ++ rh) c)
       | .using pairs => usingCond pairs
+    -- references that fail to resolve raise their error where the nested loop evaluates them
+    match ce with
+    | some c =>
+      if kind != .cross && !condPure c then
+        match L.findSome? (fun l => firstErr lw c (R.map (fun r => l ++ r))) with
+        | some e => throw (errStr e)
+        | none => pure ()
+      else pure ()
+    | none => pure ()
     let c : Cond := match ce with
       | none => fun _ => .T
-      | some ce => fun row => evalCond lw row ce
+      | some ce => if condPure ce then fun row => evalCond lw row ce
+                   else fun row => match evalCondE lw row ce with | .ok t => t | .error _ => .U
     let rows := match kind with
       | .cross => crossImpl (chunkN env.w L) R
       | .inner => (match ce with
@@ -241,31 +379,90 @@ def eval (env : Env) : Plan → Option (Nat × List Row)
       | .full => outerImpl .full lw rw (chunkN env.w L) R c
     match jc with
     | .using pairs =>
-      if pairs.isEmpty then some (lw + rw, rows) else
-      if pairs.any (fun p => p.1 ≥ lw || p.2 ≥ rw) then none else
+      if pairs.isEmpty then pure (lh ++ rh, rows) else
+      if pairs.any (fun p => p.1 ≥ lw || p.2 ≥ rw) then throw bad else
       let mp := pairs.map (fun p => match kind with
         | .right => (lw + p.2, p.1)
         | _ => (p.1, lw + p.2))
-      (usingImpl (lw + rw) mp (chunkN env.w rows)).map (fun out => (lw + rw - pairs.length, out))
-    | _ => some (lw + rw, rows)
+      let out ← optE (usingImpl (lw + rw) mp (chunkN env.w rows))
+      pure (usingHeader (lw + rw) mp (lh ++ rh), out)
+    | _ => pure (lh ++ rh, rows)
   | .query src wh sel => do
-    let (w, rows) ← eval env src
-    let rows := match wh with
-      | none => rows
-      | some ce => filterImpl (chunkN env.w rows) (fun row => evalCond 0 row ce)
+    let (h, rows) ← eval env src
+    let w := h.length
+    let rows ← (match wh with
+      | none => pure rows
+      | some ce =>
+        let ce := resolveCond h ce
+        if condPure ce then pure (filterImpl (chunkN env.w rows) (fun row => evalCond 0 row ce))
+        else match firstErr 0 ce rows with
+          | some e => throw (errStr e)
+          | none => pure (filterImpl (chunkN env.w rows)
+              (fun row => match evalCondE 0 row ce with | .ok t => t | .error _ => .U)))
+    -- `*` is expanded into one field reference per header field (qualified by the view when there is one),
+    -- each resolved by name like a written reference; index-based plans (anonymous header) keep the identity
+    let sel : Sel := match sel with
+      | .star =>
+        if h.any (fun f => f.name == "") then .star
+        else .items (h.map (fun f => SelItem.ref (if f.view == "" then none else some f.view) f.name none))
+      | s => s
     match sel with
-    | none => some (w, rows)
-    | some idxs =>
-      if idxs.any (fun i => i ≥ w) then none else
-      (projectImpl (chunkN env.w rows) idxs).map (fun out => (idxs.length, out))
+    | .star => pure (fixHeader (h.map (fun f => f.name)) h, rows)
+    | .idxs idxs =>
+      if idxs.any (fun i => i ≥ w) then throw bad else do
+      let out ← optE (projectImpl (chunkN env.w rows) idxs)
+      let hs := idxs.filterMap (fun i => h[i]?)
+      pure (fixHeader (hs.map (fun f => f.name)) hs, out)
+    | .items items => do
+      -- a select item that does not resolve is evaluated per record: an error only if there is a record
+      let resolved ← items.mapM (fun (it : SelItem) => match it with
+        | .idx i out =>
+          (match h[i]? with
+          | some f => pure (some i, out.getD f.name, f.view)
+          | none => throw bad)
+        | .ref v n out =>
+          (match fieldIndex h v n with
+          | .ok i => pure (some i, out.getD n, ((h[i]?).map (fun f => f.view)).getD "")
+          | .error e => if rows.isEmpty then pure (none, out.getD n, "") else throw (errStr e)))
+      let idxs := resolved.filterMap (fun (x : Option Nat × String × String) => x.1)
+      let out ← (if idxs.length = resolved.length then optE (projectImpl (chunkN env.w rows) idxs) else pure [])
+      pure (resolved.map (fun (x : Option Nat × String × String) => { view := x.2.2, name := x.2.1, isJoin := false }), out)
+  | .alias a names p => do
+    let (h, rows) ← eval env p
+    let h ← renameHdr names h
+    pure (aliasHeader a h, rows)
+  | .session temps files p => eval { env with temps := temps, files := files } p
+  | .withC name cols defn body => do
+    let (h, rows) ← eval env defn
+    let h ← renameHdr cols h
+    eval { env with ctes := (name, (aliasHeader name h, rows)) :: env.ctes } body
+  | .named n =>
+    match tableKind none (env.ctes.map (fun c => c.1)) (env.temps.map (fun t => t.1)) n with
+    | .cte => optE (lookupCte n env.ctes)
+    | .temp => do
+      let (_, k, cols) ← optE (lookupNamed n env.temps)
+      let (nc, rows) ← optE env.tables[k]?
+      let h ← renameHdr cols (anonHdr nc)
+      pure (aliasHeader n h, rows)
+    | _ =>
+      match lookupNamed n env.files with
+      | some (_, k, cols) => do
+        let (nc, rows) ← optE env.tables[k]?
+        let h ← renameHdr cols (anonHdr nc)
+        pure (aliasHeader n h, rows)
+      | none => throw "ENOTBL"
 
 def showRow (r : Row) : String := String.intercalate "," (r.map (fun p => showVal p.raw))
 
-def showRes (res : Nat × List Row) : String :=
-  toString res.1 ++ " " ++ (if res.2.isEmpty then "-" else String.intercalate "|" (res.2.map showRow))
+def showRes (res : Hdr × List Row) : String :=
+  toString res.1.length ++ " " ++ (if res.2.isEmpty then "-" else String.intercalate "|" (res.2.map showRow))
+
+def showE (r : Except String (Hdr × List Row)) : String :=
+  match r with
+  | .ok v => showRes v
+  | .error e => e
 
 def c03 (cmd : String) (args : List String) : String :=
-  let bad := "bad-op"
   -- a trailing `#<hex of the SQL text>` token is a comment for the human reader of a failing case
   let args := args.filter (fun a => !a.startsWith "#")
   match cmd with
@@ -279,8 +476,8 @@ def c03 (cmd : String) (args : List String) : String :=
       let (tables, ts) ← pTables vals nt ts
       let (plan, ts) ← pPlan vals (ts.length + 1) ts
       if !ts.isEmpty then none else
-      let env : Env := { tables := tables.toArray, gen := (0, []), w := w }
-      (eval env plan).map showRes).getD bad
+      let env : Env := { tables := tables.toArray, gen := ([], []), w := w }
+      some (showE (eval env plan))).getD bad
   | "rec" | "recu" =>
     (do
       let (w, ts) ← pNat args
@@ -296,15 +493,16 @@ def c03 (cmd : String) (args : List String) : String :=
       let (finalP, ts) ← (if ts.isEmpty then some (none, ts)
         else (pPlan vals (ts.length + 1) ts).map (fun (pt : Plan × List String) => (some pt.1, pt.2)))
       if !ts.isEmpty then none else
-      let env : Env := { tables := tables.toArray, gen := (0, []), w := w }
-      let (aw, a) ← eval env anchor
+      let env : Env := { tables := tables.toArray, gen := ([], []), w := w }
+      let (ah, a) ← (eval env anchor).toOption
+      let aw := anonHdr ah.length
       -- the step plan must be well-formed (checked once on the anchor)
-      let (sw, _) ← eval { env with gen := (aw, a) } stepP
-      if sw ≠ aw then none else
+      let (sh, _) ← (eval { env with gen := (aw, a) } stepP).toOption
+      if sh.length ≠ ah.length then none else
       let step : List Row → List Row := fun g =>
         match eval { env with gen := (aw, g) } stepP with
-        | some (_, rows) => rows
-        | none => []
+        | .ok (_, rows) => rows
+        | .error _ => []
       -- `recu`: UNION (distinct), records compared by their comparison keys (C04's normalisation)
       let res := if cmd == "recu" then recursiveUnionImpl (fun (r : Row) => r.map norm) step limit a
                  else recursiveImpl step limit a
@@ -312,7 +510,7 @@ def c03 (cmd : String) (args : List String) : String :=
       | some out =>
         (match finalP with
         | none => some (showRes (aw, out))
-        | some fp => (eval { env with gen := (aw, out) } fp).map showRes)
+        | some fp => some (showE (eval { env with gen := (aw, out) } fp)))
       | none => some "ERR").getD bad
   | _ => bad
 
